@@ -24,3 +24,12 @@ def get_solve_discrete_problem(*, random_utility_shock_type, variable_info, is_l
         raise ValueError(f'Invalid shock_type: {random_utility_shock_type}.')
     return partial(func, choice_axes=choice_axes, choice_segments=choice_segments)
 
+
+def _determine_dense_discrete_choice_axes(variable_info):
+    has_sparse = variable_info['is_sparse'].any()
+    dense_vars = variable_info.query('is_dense & ~(is_choice & is_continuous)').index.tolist()
+    axes = ['__sparse__', *dense_vars] if has_sparse else dense_vars
+    choice_vars = set(variable_info.query('is_choice').index.tolist())
+    choice_indices = tuple((i for i, ax in enumerate(axes) if ax in choice_vars))
+    return choice_indices if choice_indices else None
+
